@@ -442,13 +442,13 @@ def write_replay(pid, payload):
     return path
 
 
-def write_evidence(pid, tier, seed, coverage, assumptions, wall, violations):
+def write_evidence(pid, tier, seed, coverage, assumptions, wall, violations, level="proof"):
     os.makedirs(f"{ROOT}/evidence", exist_ok=True)
     ev = {
         "property_id": pid,
         "tier": tier,
         "seed": seed,
-        "level": "proof",
+        "level": level,
         "coverage": coverage,
         "assumptions": assumptions,
         "wall_s": round(wall, 2),
@@ -571,7 +571,7 @@ def run_property(cfg, tier, seed):
         "exhaustive": bool(cfg.get("exhaustive", False)),
         "known_findings_seen": known_lines,
     }
-    write_evidence(pid, tier, seed, cov, cfg.get("assumptions", []), time.time() - t0, len(violations))
+    write_evidence(pid, tier, seed, cov, cfg.get("assumptions", []), time.time() - t0, len(violations), cfg.get("level", "proof"))
 
     for ln in known_lines:
         print(ln)
